@@ -24,10 +24,12 @@ def make_backend(k):
         parenthesize=k["parenthesize"],
         group_expression="({expr})",
         token_separator=k.get("sep", " "), or_token="or", and_token="and", not_token="not", eq_token="=",
-        field_quote="'", field_quote_pattern=re.compile(r"^\w+$"), field_quote_pattern_negation=True,
-        field_escape="\\", field_escape_quote=True, field_escape_pattern=None,
+        field_quote="'", field_quote_pattern=re.compile(r"^\w+\Z"), field_quote_pattern_negation=True,
+        field_escape="\\", field_escape_quote=True, field_escape_pattern=re.compile(r"[\\']" if k.get("fpat_overlap") else r"\\"),
         str_quote='"', escape_char="\\", wildcard_multi="*", wildcard_single="?",
-        add_escaped="\\«»", filter_chars="", bool_values={True: "true", False: "false"},
+        add_escaped="\\«»=~", filter_chars="",
+        str_quote_pattern=re.compile(k["qpat"][0]) if k.get("qpat") else None,
+        str_quote_pattern_negation=bool(k["qpat"][1]) if k.get("qpat") else False, bool_values={True: "true", False: "false"},
         eq_expression="«{field}={value}»",
         not_eq_token="!=", not_eq_expression="«{field}!={value}»",
         startswith_expression="«{field} startswith {value}»" if k["startswith"] else None,
@@ -71,8 +73,8 @@ def make_backend(k):
         convert_or_as_in=k["or_in"], convert_and_as_in=k["and_in"], in_expressions_allow_wildcards=k["in_wild"],
         field_in_list_expression="«{field} {op} ({list})»", or_in_operator="in", and_in_operator="contains-all",
         list_separator=", ",
-        unbound_value_str_expression="«_={value}»", unbound_value_num_expression="«_={value}»",
-        unbound_value_re_expression="«_=~/{regex}/{flag_i}{flag_m}{flag_s}»",
+        unbound_value_str_expression="«_={value}»", unbound_value_num_expression="«_ num {value}»",
+        unbound_value_re_expression="«_=~/{value}/{flag_i}{flag_m}{flag_s}»",
         convert_not_as_not_eq=k["not_eq"],
         field_timestamp_part_expression="«{field}.{timestamp_part}»",
         timestamp_part_mapping={TimestampPart.MINUTE: "minute", TimestampPart.HOUR: "hour", TimestampPart.DAY: "day",
@@ -242,3 +244,203 @@ def run_strop(case):
     b = B()
     leaf = ConditionFieldEqualsValueExpression("f", SigmaString(case["s"]))
     return {"text": b.convert_condition_field_eq_val_str(leaf, ConversionState())}
+
+
+# ---------------------------------------------------------------------------------------------------
+# leaf suite: one (field, value) leaf rendered by a backend class; the class attributes are exported
+# as data for Model/Leaf.v
+import string as _string
+
+TKEYS = {"field": 0, "value": 1, "regex": 2, "operator": 3, "flag_i": 4, "flag_m": 5, "flag_s": 6, "field1": 7,
+         "field2": 8, "timestamp_part": 9, "network": 10, "prefixlen": 11, "netmask": 12}
+TPL_ATTRS = {"l_eq": "eq_expression", "l_neq": "not_eq_expression", "l_sw": "startswith_expression",
+             "l_nsw": "not_startswith_expression", "l_ew": "endswith_expression", "l_new": "not_endswith_expression",
+             "l_ct": "contains_expression", "l_nct": "not_contains_expression", "l_wm": "wildcard_match_expression",
+             "l_csm": "case_sensitive_match_expression", "l_csw": "case_sensitive_startswith_expression",
+             "l_ncsw": "case_sensitive_not_startswith_expression", "l_cew": "case_sensitive_endswith_expression",
+             "l_ncew": "case_sensitive_not_endswith_expression", "l_cct": "case_sensitive_contains_expression",
+             "l_ncct": "case_sensitive_not_contains_expression", "l_re": "re_expression", "l_nre": "not_re_expression",
+             "l_cidr": "cidr_expression", "l_ncidr": "not_cidr_expression", "l_cmp": "compare_op_expression",
+             "l_null": "field_null_expression", "l_exists": "field_exists_expression",
+             "l_nexists": "field_not_exists_expression", "l_ff": "field_equals_field_expression",
+             "l_ffsw": "field_equals_field_startswith_expression", "l_ffew": "field_equals_field_endswith_expression",
+             "l_ffct": "field_equals_field_contains_expression", "l_ts": "field_timestamp_part_expression",
+             "l_ub_str": "unbound_value_str_expression", "l_ub_num": "unbound_value_num_expression",
+             "l_ub_re": "unbound_value_re_expression"}
+BOOL_ATTRS = {"l_sw_sp": "startswith_expression_allow_special", "l_ew_sp": "endswith_expression_allow_special",
+              "l_ct_sp": "contains_expression_allow_special",
+              "l_csw_sp": "case_sensitive_startswith_expression_allow_special",
+              "l_cew_sp": "case_sensitive_endswith_expression_allow_special",
+              "l_cct_sp": "case_sensitive_contains_expression_allow_special"}
+PARTS = [TimestampPart.MINUTE, TimestampPart.HOUR, TimestampPart.DAY, TimestampPart.WEEK, TimestampPart.MONTH, TimestampPart.YEAR]
+CMPS = [CompareOperators.LT, CompareOperators.LTE, CompareOperators.GT, CompareOperators.GTE, CompareOperators.NEQ]
+
+
+def parse_tpl(t, B=None):
+    if t is None:
+        return None
+    out = []
+    for lit, name, spec, conv in _string.Formatter().parse(t):
+        if lit:
+            out.append(["L", lit])
+        if name is not None:
+            if name.startswith("backend.") and not spec and not conv and B is not None and hasattr(B, name[8:]):
+                out.append(["B", str(getattr(B, name[8:]))])
+            elif spec or conv or name not in TKEYS:
+                out.append(["V", 99])
+            else:
+                out.append(["V", TKEYS[name]])
+    return out
+
+
+def export_cfg(B):
+    """the class attributes the leaf renderers read, as data"""
+    g = lambda a: getattr(B, a, None)
+    K = {n: parse_tpl(g(a), B) for n, a in TPL_ATTRS.items()}
+    K.update({n: bool(g(a)) for n, a in BOOL_ATTRS.items()})
+    K["l_f"] = {"quote": g("field_quote"), "escape": g("field_escape"), "escape_quote": bool(g("field_escape_quote"))}
+    K["l_e"] = {"esc": g("escape_char"), "multi": g("wildcard_multi"), "single": g("wildcard_single"),
+                "add": g("add_escaped"), "filter": g("filter_chars")}
+    K["l_quote"] = g("str_quote")
+    K["l_quote_pat"] = None if g("str_quote_pattern") is None else bool(g("str_quote_pattern_negation"))
+    K["l_add_escaped_re"] = g("add_escaped_re")
+    K["l_re_escape"] = list(g("re_escape"))
+    K["l_re_ec"] = g("re_escape_char")
+    K["l_re_eec"] = bool(g("re_escape_escape_char"))
+    K["l_re_flag_prefix"] = bool(g("re_flag_prefix"))
+    fl = g("re_flags") or {}
+    K["l_re_fi"] = fl.get(SigmaRegularExpressionFlag.IGNORECASE)
+    K["l_re_fm"] = fl.get(SigmaRegularExpressionFlag.MULTILINE)
+    K["l_re_fs"] = fl.get(SigmaRegularExpressionFlag.DOTALL)
+    K["l_eq_token"] = g("eq_token")
+    bv = g("bool_values") or {}
+    K["l_true"], K["l_false"] = bv.get(True), bv.get(False)
+    co = g("compare_operators")
+    K["l_cmp_ops"] = None if not isinstance(co, dict) or any(o not in co for o in CMPS) else [co[o] for o in CMPS]
+    K["l_ff_q1"], K["l_ff_q2"] = [bool(x) for x in g("field_equals_field_escaping_quoting")]
+    tm = g("timestamp_part_mapping")
+    K["l_ts_map"] = [[i, tm[p]] for i, p in enumerate(PARTS) if p in tm] if isinstance(tm, dict) else []
+    return K
+
+
+def field_oracle(B, f):
+    """match positions of field_escape_pattern and the field_quote_pattern decision, computed with re only"""
+    pat = getattr(B, "field_escape_pattern", None)
+    pos = sorted({m.start() for m in pat.finditer(f)}) if (pat is not None and B.field_escape is not None) else []
+    esc_pos = set(pos)
+    if B.field_escape is not None and B.field_escape_quote and B.field_quote is not None:
+        esc_pos |= {i for i in range(len(f)) if f.startswith(B.field_quote, i)}
+    escaped = "".join((B.field_escape if i in esc_pos else "") + ch for i, ch in enumerate(f)) if B.field_escape is not None else f
+    if B.field_quote is None:
+        qd = False
+    elif B.field_quote_pattern is None:
+        qd = True
+    else:
+        qd = bool(B.field_quote_pattern.match(escaped))
+        if B.field_quote_pattern_negation:
+            qd = not qd
+    return [pos, qd]
+
+
+def mk_value(v):
+    t = v["t"]
+    if t == "str":
+        return SigmaCasedString(v["s"]) if v.get("cased") else SigmaString(v["s"])
+    if t == "num":
+        return SigmaNumber(v["n"])
+    if t == "bool":
+        return SigmaBool(v["b"])
+    if t == "null":
+        return SigmaNull()
+    if t == "re":
+        fl = {"i": SigmaRegularExpressionFlag.IGNORECASE, "m": SigmaRegularExpressionFlag.MULTILINE, "s": SigmaRegularExpressionFlag.DOTALL}
+        return SigmaRegularExpression(v["rx"], {fl[c] for c in v["flags"]})
+    if t == "cidr":
+        return SigmaCIDRExpression(v["cidr"])
+    if t == "cmp":
+        return SigmaCompareExpression(SigmaNumber(v["n"]), CMPS[v["op"]])
+    if t == "cmpts":
+        return SigmaCompareExpression(SigmaTimestampPart(PARTS[v["part"]], v["n"]), CMPS[v["op"]])
+    if t == "ts":
+        return SigmaTimestampPart(PARTS[v["part"]], v["n"])
+    if t == "exists":
+        return SigmaExists(v["b"])
+    if t == "fieldref":
+        return SigmaFieldReference(v["f2"], v["sw"], v["ew"])
+    raise ValueError(t)
+
+
+def _wordchars(*fs):
+    return sorted({ch for f in fs if f for ch in f if ord(ch) > 127 and re.match(r"\w", ch)})
+
+
+def _outcome(f):
+    from sigma.exceptions import SigmaError
+    try:
+        return {"ok": f()}
+    except SigmaError as e:
+        return {"exc": type(e).__name__, "sigma": True}
+    except Exception as e:
+        return {"exc": type(e).__name__, "sigma": False}
+
+
+def run_leaf(case):
+    cfg = case["cfg"]
+    if cfg["family"] == "vb":
+        B = make_backend(cfg["k"])
+    else:
+        from sigma.backends.test import TextQueryTestBackend
+        _counter[0] += 1
+        B = type(f"TBackend{_counter[0]}", (TextQueryTestBackend,), dict(cfg.get("attrs", {})))
+    b = B()
+    v = mk_value(case["value"])
+    f = case["field"]
+    out = {"K": export_cfg(B), "extra": _wordchars(f, case["value"].get("f2"))}
+    out["fo"] = field_oracle(B, f) if f is not None else None
+    if case["value"]["t"] == "fieldref":
+        out["fo2"] = field_oracle(B, case["value"]["f2"])
+    if isinstance(v, SigmaString):
+        pat = B.str_quote_pattern
+        def pm(x):
+            try:
+                return bool(pat.match(str(x))) if pat is not None else False
+            except Exception:
+                return False
+        def sl(f_):
+            try:
+                return f_()
+            except Exception:
+                return None
+        out["pm"] = [pm(v), pm(sl(lambda: v[:-1])), pm(sl(lambda: v[1:])), pm(sl(lambda: v[1:-1]))]
+        out["val"] = ["cstr" if isinstance(v, SigmaCasedString) else "str", parts(v)]
+    else:
+        out["pm"] = [False] * 4
+        if isinstance(v, SigmaTimestampPart):
+            out["val"] = ["ts", case["value"]["part"], str(v)]
+        elif isinstance(v, SigmaNumber):
+            out["val"] = ["num", str(v)]
+        elif isinstance(v, SigmaCIDRExpression):
+            n = v.network
+            out["val"] = ["cidr", str(n), str(n.network_address), str(n.prefixlen), str(n.netmask)]
+        elif isinstance(v, SigmaCompareExpression):
+            if isinstance(v.number, SigmaTimestampPart):
+                out["val"] = ["cmpts", case["value"]["op"], case["value"]["part"], str(v.number)]
+            else:
+                out["val"] = ["cmp", case["value"]["op"], str(v.number)]
+        elif isinstance(v, SigmaRegularExpression):
+            out["val"] = ["re", str(v.regexp), sorted(case["value"]["flags"])]
+        else:
+            out["val"] = None     # described by the case itself
+    st = ConversionState()
+    if f is None:
+        leaf = ConditionValueExpression(v)
+        out["r"] = _outcome(lambda: b.convert_condition_val(leaf, st))
+        out["rn"] = out["r"]
+    else:
+        leaf = ConditionFieldEqualsValueExpression(f, v)
+        out["r"] = _outcome(lambda: Backend.convert_condition_field_eq_val(b, leaf, st))
+        def neg():
+            with b.not_equals_context_manager(True):
+                return Backend.convert_condition_field_eq_val(b, leaf, st)
+        out["rn"] = _outcome(neg)
+    return out
